@@ -52,10 +52,20 @@ func emit(m M) {
 type Probe struct{ ID int }
 
 func newProbe() *Probe { return &Probe{ID: int(atomic.AddInt64(&probes, 1))} }
+var closeFail bool // the scenario in progress wants the scoped instance's Close to fail
+
+var errProbeClose = errors.New("verif: scripted close failure")
+
 func (p *Probe) Close() error {
 	emit(M{"ev": "probe_close", "probe": p.ID})
+	if closeFail {
+		return errProbeClose
+	}
 	return nil
 }
+
+// the configured close-error handler of every integration
+func closeErrH(err error) { emit(M{"ev": "closeerrh", "disposal": err != nil}) }
 
 type Ctrl struct {
 	ID    int
@@ -78,6 +88,7 @@ type Scenario struct {
 	ProvClosed bool   `json:"provclosed"`
 	Batch      int    `json:"batch"`
 	Outer      bool   `json:"outer"` // the incoming request context already carries an application-level scope
+	CloseFail  bool   `json:"closefail"`
 }
 
 // outerCtx is the context every incoming request carries (context.Background unless the scenario says the
@@ -188,6 +199,10 @@ func buildHTTP(sc *Scenario, p godi.Provider, chi bool) *app {
 	}
 	opts = append(opts, godihttp.WithErrorHandler(eh))
 	copts = append(copts, godichi.WithErrorHandler(eh))
+	if sc.CloseFail {
+		opts = append(opts, godihttp.WithCloseErrorHandler(closeErrH))
+		copts = append(copts, godichi.WithCloseErrorHandler(closeErrH))
+	}
 	var h http.Handler
 	if sc.Handler == "handle" {
 		meth := func(c *Ctrl, w http.ResponseWriter, r *http.Request) { method(sc, rqOf(r.Header), c, r.Context()) }
@@ -264,6 +279,9 @@ func buildGin(sc *Scenario, p godi.Provider) *app {
 			emit(M{"ev": "errh", "rq": rqOf(c.Request.Header), "kind": kindOfErr(err)})
 			c.AbortWithStatus(500)
 		}))
+		if sc.CloseFail {
+			opts = append(opts, godigin.WithCloseErrorHandler(closeErrH))
+		}
 		g.Use(godigin.ScopeMiddleware(p, opts...))
 	}
 	if sc.Handler == "handle" {
@@ -324,6 +342,9 @@ func buildEcho(sc *Scenario, p godi.Provider) *app {
 			emit(M{"ev": "errh", "rq": rqOf(c.Request().Header), "kind": kindOfErr(err)})
 			return c.NoContent(500)
 		}))
+		if sc.CloseFail {
+			opts = append(opts, godiecho.WithCloseErrorHandler(closeErrH))
+		}
 		e.Use(godiecho.ScopeMiddleware(p, opts...))
 	}
 	if sc.Handler == "handle" {
@@ -389,6 +410,9 @@ func buildFiber(sc *Scenario, p godi.Provider) *app {
 			emit(M{"ev": "errh", "rq": frq(c), "kind": kindOfErr(err)})
 			return c.SendStatus(500)
 		}))
+		if sc.CloseFail {
+			opts = append(opts, godifiber.WithCloseErrorHandler(closeErrH))
+		}
 		a.Use(godifiber.ScopeMiddleware(p, opts...))
 	}
 	if sc.Handler == "handle" {
@@ -495,6 +519,7 @@ func runScenario(sc *Scenario, raw []byte, run int) {
 	if sc.ProvClosed {
 		p.Close()
 	}
+	closeFail = sc.CloseFail
 	outerCtx = context.Background()
 	if sc.Outer {
 		as, err := p.CreateScope(context.Background())
